@@ -42,7 +42,9 @@ Proof. eexists. vm_compute. reflexivity. Qed.
 Ltac grammar_tac :=
   split; [split;
     [split; [repeat constructor; simpl; intuition discriminate
-            |simpl; split; [lia|]; eexists; eexists; eexists; split; [reflexivity|vm_compute; reflexivity]]
+            |simpl; first
+               [ eexists; split; [vm_compute; reflexivity|first [left; simpl; lia|right; reflexivity]]
+               | split; [lia|]; eexists; eexists; eexists; split; [reflexivity|vm_compute; reflexivity] ]]
     |split; [vm_compute; reflexivity|split; [reflexivity|repeat constructor; simpl; intuition discriminate]]]
   |eexists; eexists; vm_compute; reflexivity].
 
